@@ -8,3 +8,167 @@ package odal
 //@ type State
 //@   guarded_by assetInstances : assetMutex
 //@   lock_level assetMutex = 45
+
+// ---------------------------------------------------------------------------------------------
+// Asset instances: view  asset : entity -> instance  (at most one per entity)
+// ---------------------------------------------------------------------------------------------
+
+//@ spec fn wfAssets(s *State) bool = wfGen(s.assetInstanceIDs) && len(s.assetInstanceIDs.reusableIDs) == 0
+//@     && (forall e: uint32 :: e in s.assetInstances ==> s.assetInstances[e] != nil && s.assetInstances[e].EntityId == e && 1 <= s.assetInstances[e].Id && s.assetInstances[e].Id <= s.assetInstanceIDs.currentID)
+//@     && (forall e1: uint32, e2: uint32 :: e1 in s.assetInstances && e2 in s.assetInstances && s.assetInstances[e1].Id == s.assetInstances[e2].Id ==> e1 == e2)
+//@ spec fn wfOdal(m *Module) bool = m.currentSession != nil ==> m.state != nil && wfAssets(m.state) && wfEnts(m.currentSession) && wfParts(m.currentSession)
+
+//@ func (*modules/odal.State).SetAssetInstance
+//@   property C16
+//@   requires ai != nil
+//@   modifies s.assetInstances, contents(s.assetInstances)
+//@   allocates
+//@   ensures {C16} ai.EntityId in s.assetInstances && s.assetInstances[ai.EntityId] == ai
+//@   ensures {C16} forall e: uint32 :: e != ai.EntityId ==> ((e in s.assetInstances) <==> old(e in s.assetInstances)) && (e in s.assetInstances ==> s.assetInstances[e] == old(s.assetInstances[e]))
+
+//@ func (*modules/odal.State).RemoveAssetInstance
+//@   property C16, C06
+//@   modifies contents(s.assetInstances)
+//@   ensures {C16,C06} forall e: uint32 :: ((e in s.assetInstances) <==> (old(e in s.assetInstances) && e != entityID)) && (e in s.assetInstances ==> s.assetInstances[e] == old(s.assetInstances[e]))
+
+//@ func (*modules/odal.State).AssetInstances
+//@   property C16, C01
+//@   event
+//@   requires forall e: uint32 :: e in s.assetInstances ==> s.assetInstances[e] != nil && s.assetInstances[e].EntityId == e
+//@   modifies nothing
+//@   allocates
+//@   ensures {C16,C01} len(result) == len(s.assetInstances)
+//@   ensures {C16,C01} forall j: int :: 0 <= j && j < len(result) ==> result[j] != nil && result[j].EntityId in s.assetInstances && s.assetInstances[result[j].EntityId] == result[j]
+//@   ensures {C16,C01} forall e: uint32 :: e in s.assetInstances ==> exists j: int :: 0 <= j && j < len(result) && result[j] == s.assetInstances[e]
+//@   loop 1:
+//@     ghost pos
+//@     update pos[$ai.EntityId] = len($assetInstances) - 1
+//@     invariant len($assetInstances) == N
+//@     invariant forall k: uint32 :: k in V ==> k in s.assetInstances
+//@     invariant forall j: int :: 0 <= j && j < len($assetInstances) ==> $assetInstances[j] != nil && $assetInstances[j].EntityId in s.assetInstances && s.assetInstances[$assetInstances[j].EntityId] == $assetInstances[j]
+//@     invariant forall e: uint32 :: e in V ==> 0 <= pos[e] && pos[e] < len($assetInstances) && $assetInstances[pos[e]] == s.assetInstances[e]
+
+//@ func (*modules/odal.Module).Init
+//@   property C16
+//@   requires s != nil && p != nil && s.moduleStates != nil
+//@   requires "odal" in s.moduleStates ==> dyntype(s.moduleStates["odal"], *State) && s.moduleStates["odal"].(*State) != nil
+//@   modifies m.currentSession, m.currentParticipant, m.state, contents(s.moduleStates)
+//@   allocates
+//@   ensures m.currentSession == s && m.currentParticipant == p && m.state != nil
+//@   ensures {C16} "odal" in s.moduleStates && s.moduleStates["odal"].(*State) == m.state
+//@   ensures {C16} old("odal" in s.moduleStates) ==> m.state == old(s.moduleStates["odal"].(*State)) && same_contents(s.moduleStates)
+
+//@ func (*modules/odal.Module).handleAssetInstanceAdd
+//@   event
+//@   modifies m.state.assetInstances, contents(m.state.assetInstances), m.state.assetInstanceIDs.currentID, contents(m.state.assetInstanceIDs.reusableIDs), all ghost.*
+//@   allocates
+//@   property C16, C04
+//@   let req = decoded(msg, odalpb.AssetInstanceAddRequest)
+//@   let E = decoded(msg, odalpb.AssetInstanceAddRequest).EntityId
+//@   let S = m.currentSession
+//@   let P = m.currentParticipant
+//@   let St = m.state
+//@   let nid = m.state.assetInstanceIDs.currentID + 1
+//@   requires wfOdal(m) && respond != nil
+//@   requires m.currentSession != nil ==> m.state.assetInstanceIDs.currentID < 4294967295
+//@   ensures wfOdal(m)
+//@   behaviour undecodable:
+//@     assumes !decode_ok(msg)
+//@     ensures result != nil && unchanged_world()
+//@     emits []
+//@   behaviour not_joined:
+//@     assumes decode_ok(msg) && (S == nil || P == nil)
+//@     ensures {C04,C03} result != nil && unchanged_world()
+//@     emits {C04,C03} []
+//@   behaviour no_asset_id:
+//@     assumes decode_ok(msg) && S != nil && P != nil && req.AssetId == ""
+//@     ensures {C16} result == nil && unchanged_world()
+//@     emits {C16,C04} [send(respond, hagallpb.ErrorResponse{Type: hagallpb.MsgType_MSG_TYPE_ERROR_RESPONSE, RequestId: req.RequestId, Code: hagallpb.ErrorCode_ERROR_CODE_BAD_REQUEST})]
+//@   behaviour no_entity:
+//@     assumes decode_ok(msg) && S != nil && P != nil && req.AssetId != "" && !(E in S.entities)
+//@     ensures {C16} result == nil && unchanged_world()
+//@     emits {C16,C04} [send(respond, hagallpb.ErrorResponse{Type: hagallpb.MsgType_MSG_TYPE_ERROR_RESPONSE, RequestId: req.RequestId, Code: hagallpb.ErrorCode_ERROR_CODE_NOT_FOUND})]
+//@   behaviour foreign:
+//@     assumes decode_ok(msg) && S != nil && P != nil && req.AssetId != "" && E in S.entities && S.entities[E].ParticipantID != P.ID
+//@     ensures {C16,C05} result == nil && unchanged_world()
+//@     emits {C16,C05,C04,C02} [send(respond, hagallpb.ErrorResponse{Type: hagallpb.MsgType_MSG_TYPE_ERROR_RESPONSE, RequestId: req.RequestId, Code: hagallpb.ErrorCode_ERROR_CODE_UNAUTHORIZED})]
+//@   behaviour added:
+//@     assumes decode_ok(msg) && S != nil && P != nil && req.AssetId != "" && E in S.entities && S.entities[E].ParticipantID == P.ID
+//@     ensures {C16,C10} result == nil && E in St.assetInstances && St.assetInstances[E].Id == nid && St.assetInstances[E].AssetId == req.AssetId && St.assetInstances[E].ParticipantId == P.ID && St.assetInstances[E].EntityId == E && fresh(St.assetInstances[E])
+//@     ensures {C16} forall e: uint32 :: e != E ==> ((e in St.assetInstances) <==> old(e in St.assetInstances)) && (e in St.assetInstances ==> St.assetInstances[e] == old(St.assetInstances[e]))
+//@     emits {C16,C04,C02} [send(respond, odalpb.AssetInstanceAddResponse{Type: odalpb.MsgType_MSG_TYPE_ODAL_ASSET_INSTANCE_ADD_RESPONSE, RequestId: req.RequestId, AssetInstanceId: nid}); Broadcast(S, P, odalpb.AssetInstanceAddBroadcast{Type: odalpb.MsgType_MSG_TYPE_ODAL_ASSET_INSTANCE_ADD_BROADCAST, OriginTimestamp: req.Timestamp, AssetInstance: odalpb.AssetInstance{Id: nid, AssetId: req.AssetId, ParticipantId: P.ID, EntityId: E}})]
+//@   complete behaviours
+//@   disjoint behaviours
+
+//@ func (*modules/odal.Module).handleEntityDelete
+//@   event
+//@   modifies contents(m.state.assetInstances)
+//@   allocates
+//@   property C16, C06
+//@   let id = decoded(msg, hagallpb.EntityDeleteRequest).EntityId
+//@   let S = m.currentSession
+//@   let St = m.state
+//@   requires wfOdal(m) && m.currentSession != nil
+//@   emits []
+//@   behaviour undecodable:
+//@     assumes !decode_ok(msg)
+//@     ensures result != nil && unchanged_world()
+//@   behaviour still_there:
+//@     assumes decode_ok(msg) && id in S.entities
+//@     ensures result == nil && unchanged_world()
+//@   behaviour cascade:
+//@     assumes decode_ok(msg) && !(id in S.entities)
+//@     ensures {C16,C06} result == nil && forall e: uint32 :: ((e in St.assetInstances) <==> (old(e in St.assetInstances) && e != id)) && (e in St.assetInstances ==> St.assetInstances[e] == old(St.assetInstances[e]))
+//@   complete behaviours
+//@   disjoint behaviours
+
+//@ func (*modules/odal.Module).handleParticipantJoin
+//@   event
+//@   modifies all ghost.*
+//@   allocates
+//@   property C16, C01
+//@   requires wfOdal(m) && m.currentSession != nil && respond != nil
+//@   ensures result == nil && unchanged_world()
+//@   emits {C16,C01} [AssetInstances(m.state); send(respond, odalpb.State{Type: odalpb.MsgType_MSG_TYPE_ODAL_STATE})]
+
+//@ func (*modules/odal.Module).HandleDisconnect
+//@   property C16, C06
+//@   let S = m.currentSession
+//@   let P = m.currentParticipant
+//@   let St = m.state
+//@   requires wfOdal(m)
+//@   requires m.currentParticipant != nil ==> m.currentSession != nil
+//@   behaviour unbound:
+//@     assumes P == nil
+//@     ensures unchanged_world()
+//@   behaviour bound:
+//@     assumes P != nil
+//@     ensures {C16,C06} forall e: uint32 :: ((e in St.assetInstances) <==> (old(e in St.assetInstances) && !(e in P.entityIDs && (!(e in S.entities) || !S.entities[e].Persist)))) && (e in St.assetInstances ==> St.assetInstances[e] == old(St.assetInstances[e]))
+//@   complete behaviours
+//@   disjoint behaviours
+//@   loop 1:
+//@     invariant forall k: uint32 :: k in V ==> k in P.entityIDs
+//@     invariant forall e: uint32 :: ((e in St.assetInstances) <==> (old(e in St.assetInstances) && !(e in V && (!(e in S.entities) || !S.entities[e].Persist)))) && (e in St.assetInstances ==> St.assetInstances[e] == old(St.assetInstances[e]))
+
+//@ func (*modules/odal.Module).HandleMsg
+//@   property C16, C04
+//@   let isJoin = msgtype(msg) == enum(hagallpb.MsgType_MSG_TYPE_PARTICIPANT_JOIN_REQUEST)
+//@   let isDelete = msgtype(msg) == enum(hagallpb.MsgType_MSG_TYPE_ENTITY_DELETE_REQUEST)
+//@   let isOwn = enumnum(msgtype(msg)) == odalpb.MsgType_MSG_TYPE_ODAL_ASSET_INSTANCE_ADD_REQUEST
+//@   requires wfOdal(m) && respond != nil && m.currentSession != nil && msgtype(msg) != nil
+//@   requires m.state.assetInstanceIDs.currentID < 4294967295
+//@   behaviour join:
+//@     assumes isJoin
+//@     emits {C16,C04} [handleParticipantJoin(m, _, respond, msg)]
+//@   behaviour delete:
+//@     assumes !isJoin && isDelete
+//@     emits {C16,C04} [handleEntityDelete(m, _, respond, msg)]
+//@   behaviour own:
+//@     assumes !isJoin && !isDelete && isOwn
+//@     emits {C16,C04} [handleAssetInstanceAdd(m, _, respond, msg)]
+//@   behaviour skip:
+//@     assumes !isJoin && !isDelete && !isOwn
+//@     ensures {C16,C04} istype(result, hwebsocket.ErrTypeMsgSkip) && unchanged_world()
+//@     emits {C16,C04} []
+//@   complete behaviours
+//@   disjoint behaviours
